@@ -22,8 +22,15 @@ for d in sorted(os.listdir('seeded')):
     json.dump(meta, open(meta_p, 'w'), indent=1)
     rows.append((d, status, ', '.join(sorted(set(sigs))[:3])))
     print(d, status, sorted(set(sigs))[:3], flush=True)
-if not only:
-    with open('seeded/RESULTS.md', 'w') as f:
-        f.write("| seed | quick check of its property | first signatures |\n|---|---|---|\n")
-        for r in rows:
-            f.write(f"| {r[0]} | {r[1]} | {r[2]} |\n")
+# RESULTS.md is rebuilt from all meta.json files (so partial runs keep it complete)
+def _key(d):
+    a, b = d.split('-')
+    return (a, int(b))
+with open('seeded/RESULTS.md', 'w') as f:
+    f.write("| seed | quick check of its property | first signatures |\n|---|---|---|\n")
+    for d in sorted((x for x in os.listdir('seeded') if re.fullmatch(r'C\d\d-\d+', x)), key=_key):
+        try:
+            db = json.load(open(f'seeded/{d}/meta.json')).get('detected_by') or {}
+        except Exception:
+            db = {}
+        f.write(f"| {d} | {db.get('status', 'not run')} | {', '.join(db.get('signatures', [])[:3])} |\n")
